@@ -1024,5 +1024,83 @@ Section Wf.
       - discriminate.
       - reflexivity.
     Qed.
+
+    (* ---------------------------------------------------------- one node *)
+    Hypothesis Hnodes : forall nd i, get (g_nodes g) nd = Some i -> node_safe_b g i = true.
+
+    Lemma match_node_body_wf fl nd idx len terms m :
+      idx <= len -> len <= n -> match_node_body g toks rx rec fl nd idx len terms = ROk m -> Q idx len m.
+    Proof.
+      unfold match_node_body, info. intros Hi Hl H.
+      destruct (get (g_nodes g) nd) as [inf|] eqn:Eg; [|discriminate]. cbn [bind] in H.
+      pose proof (Hnodes _ _ Eg) as Hsafe. unfold node_safe_b in Hsafe.
+      destruct (n_node inf).
+      - (* GRef *)
+        destruct target as [t|]; [|discriminate].
+        inv_bind H. destruct a; [inversion H; subst; apply Q_empty; lia|].
+        eapply Hrec; eassumption.
+      - apply match_sequence_wf in H; [exact (proj1 H)|exact Hi|exact Hl].
+      - eapply match_bracketed_wf; [|exact Hi|exact Hl|exact H].
+        intros sb eb -> -> ->. exact Hsafe.
+      - eapply match_anynumberof_wf; eassumption.
+      - eapply match_delimited_wf; eassumption.
+      - (* GNodeM *)
+        destruct (len <=? idx) eqn:E; b2p; [inversion H; subst; apply Q_empty; lia|].
+        inv_bind H. apply tok_get in Ha as [Hlt _].
+        destruct (p_kind a =? kind).
+        + inversion H; subst. apply Q_at; [apply wf_from_span; lia|intros c []|reflexivity].
+        + inv_bind H. inversion H; subst. apply Q_wrap; [lia|]. eapply Hrec; eassumption.
+      - inv_bind H. apply tok_get in Ha as [Hlt _].
+        destruct (p_code a && (p_upper a =? upper)); inversion H; subst; [|apply Q_empty; lia].
+        apply Q_at; [apply wf_one_token; lia|intros c []|reflexivity].
+      - inv_bind H. apply tok_get in Ha as [Hlt _].
+        destruct (p_code a && memN (p_upper a) uppers); inversion H; subst; [|apply Q_empty; lia].
+        apply Q_at; [apply wf_one_token; lia|intros c []|reflexivity].
+      - inv_bind H. apply tok_get in Ha as [Hlt _].
+        destruct (p_kind a =? template); inversion H; subst; [|apply Q_empty; lia].
+        apply Q_at; [apply wf_one_token; lia|intros c []|reflexivity].
+      - inv_bind H. apply tok_get in Ha as [Hlt _].
+        destruct (existsb _ rx); inversion H; subst; [|apply Q_empty; lia].
+        apply Q_at; [apply wf_one_token; lia|intros c []|reflexivity].
+      - discriminate.
+      - destruct enabled; inversion H; subst; [|apply Q_empty; lia].
+        apply Q_at; [|intros c []|reflexivity].
+        exact (wf_add_ins n idx idx [] [] idx [kind] ltac:(apply wf_nil; lia) ltac:(lia) ltac:(lia) Hn).
+      - destruct (is_empty terms0 && is_empty terms).
+        + inversion H; subst. apply Q_at; [apply wf_from_span; lia|intros c []|reflexivity].
+        + eapply greedy_match_wf; eassumption.
+      - inversion H; subst. apply Q_empty. lia.
+      - inv_bind H. destruct a as [j|]; [|inversion H; subst; apply Q_empty; lia].
+        apply (noncode_scan_spec toks) in Ha.
+        destruct (idx <? j); inversion H; subst; [|apply Q_empty; lia].
+        apply Q_at; [apply wf_from_span; lia|intros c []|reflexivity].
+      - inv_bind H. apply tok_get in Ha as [Hlt _].
+        destruct (p_kind a =? k_bracketed g); inversion H; subst; [|apply Q_empty; lia].
+        apply Q_at; [apply wf_from_span; lia|intros c []|reflexivity].
+    Qed.
   End WithRec.
+
+  (* ------------------------------------------------------------ tying the knot *)
+  Hypothesis Hsafe : wf_safe_b g = true.
+
+  Lemma safe_nodes : forall nd i, get (g_nodes g) nd = Some i -> node_safe_b g i = true.
+  Proof.
+    intros nd i E. unfold wf_safe_b in Hsafe. apply andb_true_iff in Hsafe as [H _].
+    unfold get in E. apply PositiveMap.elements_correct in E.
+    rewrite forallb_forall in H. exact (H _ E).
+  Qed.
+  Lemma safe_brackets : brackets_safe_b g = true.
+  Proof. unfold wf_safe_b in Hsafe. apply andb_true_iff in Hsafe as [_ H]. exact H. Qed.
+
+  Theorem match_node_Q fuel : forall nd idx len terms m,
+    idx <= len -> len <= n -> match_node g toks rx fuel nd idx len terms = ROk m -> Q idx len m.
+  Proof.
+    induction fuel as [|f IH]; intros nd idx len terms m Hi Hl H; cbn [match_node] in H; [discriminate|].
+    eapply (match_node_body_wf (match_node g toks rx f)); [| | | | |exact Hi|exact Hl|exact H].
+    - exact (match_node_bounds g toks rx f).
+    - exact IH.
+    - intros nd0 i l t m0. apply match_node_code1.
+    - exact safe_brackets.
+    - exact safe_nodes.
+  Qed.
 End Wf.
